@@ -48,6 +48,49 @@ def base_type_name(t):
     return t.rstrip('&* ').strip()
 
 
+def type_test_says_binary(prog, f, cond, taken_true, depth=0):
+    """does this branch of the condition mean `the next value is classified BinaryArray`? Read through negations, named temporaries and a
+    helper of the same class whose body is `return <reader>->ReadValueType() ==/!= <parameter>;` called with ValueType::BinaryArray."""
+    from bsv.expr import resolve
+    e = resolve(f, cond)
+    pol = taken_true
+    while e is not None and e['k'] == 'UnaryOperator' and e.get('op') == '!':
+        pol = not pol
+        e = resolve(f, e['c'][0])
+    if e is None:
+        return False
+    if e['k'] in ('BinaryOperator', 'CXXOperatorCallExpr') and e.get('op') in ('==', '!='):
+        calls_vt = any(x['k'] == 'CXXMemberCallExpr' and (f.callee(x) or {}).get('n') == 'ReadValueType' for x in f.walk(e))
+        names_bin = any(x['k'] == 'DeclRefExpr' and x.get('n') == 'BinaryArray' for x in f.walk(e))
+        if calls_vt and names_bin:
+            return pol if e['op'] == '==' else not pol
+        return False
+    if e['k'] == 'CXXMemberCallExpr' and depth == 0:
+        c = f.callee(e) or {}
+        h = prog.funcs.get(c.get('id'))
+        if h is None or h.body is None or c.get('cls') != f.cls or not h.params:
+            return False
+        if not any(x['k'] == 'DeclRefExpr' and x.get('n') == 'BinaryArray' for a in e.get('c', [])[1:] for x in f.walk(a)):
+            return False
+        rets = [x for x in h.walk() if x['k'] == 'ReturnStmt']
+        if len(rets) != 1 or not rets[0].get('c'):
+            return False
+        r = resolve(h, rets[0]['c'][0])
+        neg = False
+        while r is not None and r['k'] == 'UnaryOperator' and r.get('op') == '!':
+            neg = not neg
+            r = resolve(h, r['c'][0])
+        if r is None or r['k'] not in ('BinaryOperator', 'CXXOperatorCallExpr') or r.get('op') not in ('==', '!='):
+            return False
+        calls_vt = any(x['k'] == 'CXXMemberCallExpr' and (h.callee(x) or {}).get('n') == 'ReadValueType' for x in h.walk(r))
+        uses_param = any(x['k'] == 'DeclRefExpr' and x.get('d') == h.params[0]['d'] for x in h.walk(r))
+        if not (calls_vt and uses_param):
+            return False
+        helper_true_means_binary = (r['op'] == '==') != neg
+        return pol == helper_true_means_binary
+    return False
+
+
 class Deltas(object):
     """(consumed, counted) per normal path, with same-class helper methods inlined."""
 
@@ -199,10 +242,7 @@ def run(prog, rep):
                 c = f.node(cid) if isinstance(cid, int) else None
                 if c is None:
                     continue
-                calls_vt = any(x['k'] == 'CXXMemberCallExpr' and (f.callee(x) or {}).get('n') == 'ReadValueType' for x in f.walk(c))
-                names_bin = any(x['k'] == 'DeclRefExpr' and x.get('n') == 'BinaryArray' for x in f.walk(c))
-                ops = [x.get('op') for x in f.walk(c) if x['k'] in ('BinaryOperator', 'CXXOperatorCallExpr') and x.get('op') in ('==', '!=')]
-                if calls_vt and names_bin and len(ops) == 1 and ((ops[0] == '!=' and idx == 1) or (ops[0] == '==' and idx == 0)):
+                if type_test_says_binary(prog, f, c, idx == 0):
                     typed_bin = True
             ev = []
             for n in nodes:
